@@ -1,0 +1,14 @@
+//go:build verif
+
+package otto
+
+// VerifRest reports the interpreter's bookkeeping for an observer outside
+// the package: the number of execution contexts on the scope chain and the
+// number of pending statement labels. Both are zero when no script is running.
+// Read-only; compiled only with the "verif" build tag.
+func VerifRest(o *Otto) (scopeDepth, pendingLabels int) {
+	for s := o.runtime.scope; s != nil; s = s.outer {
+		scopeDepth++
+	}
+	return scopeDepth, len(o.runtime.labels)
+}
